@@ -3,6 +3,7 @@
 #pragma once
 #include "gen_grammar.hpp"
 #include "diag_text.hpp"
+#include "buffers.hpp"
 #include <sstream>
 
 using eng::Choice; using eng::Stats; using eng::Verdict;
@@ -85,6 +86,7 @@ struct Obs
     bool has = false; uint64_t value = 0;
     std::string err;
     tpl::CallLog log;
+    bool checked = false; bool any_deref = false; size_t max_deref = 0; size_t derefs = 0;   // buffer kind 2 (checked user buffer)
 };
 
 struct Prepared
@@ -111,7 +113,7 @@ struct Runner
         static const auto patterns = tpl::patterns_of(TT::slots());
         access::inject(parser(), g, tpl::T36_PARK, patterns, [](bool h, int pr) { return TT::dsl_prec(h, pr); });
     }
-    // stream: 0 none, 1 std::ostringstream, 2 user stream ; buffer: 0 string_view over an exact heap copy, 1 string_buffer
+    // stream: 0 none, 1 std::ostringstream, 2 user stream ; buffer: 0 string_view over an exact heap copy, 1 string_buffer, 2 checked user buffer
     static Obs observe(const gg::Input& in, bool verbose, int stream, int buffer)
     {
         Obs o; tpl::g_log = &o.log;
@@ -127,7 +129,13 @@ struct Runner
             auto with_buffer = [&](auto& strm)
             {
                 if (buffer == 0) { ctpg::buffers::string_view_buffer b(sv); base = sv.data(); take(p.parse(opts, b, strm)); }
-                else { ctpg::buffers::string_buffer b{std::string(in.text)}; base = b.get_view(b.begin(), b.end()).data(); take(p.parse(opts, b, strm)); }
+                else if (buffer == 1) { ctpg::buffers::string_buffer b{std::string(in.text)}; base = b.get_view(b.begin(), b.end()).data(); take(p.parse(opts, b, strm)); }
+                else
+                {
+                    vb::CheckedBuffer b(in.text); base = b.s.data(); o.checked = true;
+                    try { take(p.parse(opts, b, strm)); } catch (...) { o.any_deref = b.any_deref; o.max_deref = b.max_deref; o.derefs = b.derefs; throw; }
+                    o.any_deref = b.any_deref; o.max_deref = b.max_deref; o.derefs = b.derefs;
+                }
             };
             if (stream == 0) { ctpg::utils::no_stream ns; with_buffer(ns); }
             else if (stream == 1) { std::ostringstream os; with_buffer(os); o.err = os.str(); }
